@@ -97,6 +97,25 @@ class DuckSeekableSource:
     close = SeekableSource.close
 
 
+class WrappedFileSource(SeekableSource):
+    """A seekable stream LAYERED over an operating-system file, as gzip.GzipFile,
+    bz2.BZ2File or a codec reader are: read/seek/tell work in the stream's own
+    (logical) positions while fileno() names the underlying file, whose size
+    and offsets are unrelated to them."""
+
+    def __init__(self, world, tidx, data, offset, short=False):
+        SeekableSource.__init__(self, world, tidx, data, offset, short)
+        fs = world.fs
+        raw = '/d/raw%d' % tidx
+        # the "compressed" file underneath: a different length from the stream
+        node = fs.files.setdefault(raw, bytearray(b'\x1f' * (len(data) // 3 + 2)))
+        from .fs import SimFile
+        self._rawfile = SimFile(fs, raw, 'rb', node)
+
+    def fileno(self):
+        return self._rawfile.fileno()
+
+
 class NonSeekableSource:
     """A readable stream without seek/tell (a pipe)."""
 
@@ -334,4 +353,19 @@ def make_subscriber_cls():
                 w.faults.record(f, exc, w.sim.stamp(), t=self.tidx, kind='done')
                 raise exc
 
+    class AdapterSubscriber(BaseSubscriber):
+        """The same subscriber in 'adapter' shape: a plain BaseSubscriber whose
+        callbacks are bound on the INSTANCE (self.on_done = fn), as code that
+        wraps plain functions into a subscriber does; the class itself
+        overrides nothing."""
+
+        def __init__(self, world, tidx, sidx, spec):
+            inner = RecordingSubscriber(world, tidx, sidx, spec)
+            self.inner = inner
+            self.spec = inner.spec
+            self.on_queued = inner.on_queued
+            self.on_progress = inner.on_progress
+            self.on_done = inner.on_done
+
+    RecordingSubscriber.Adapter = AdapterSubscriber
     return RecordingSubscriber
